@@ -176,6 +176,34 @@ def run(ctx):
                   pyg.make_config(tree_r.root, pyg.DIR_HANDLERS, **{"handlers.dir.DirHandler|cachetime": "0"}), "", names)
         finally:
             tree_r.close()
+        # with the listing cache on (shipped lifetime): a request that only *prepares* a listing (HTTP HEAD, Gopher+ '!') must not
+        # change what the next listing of the directory shows.  Twin directories: one is listed straight away, the other after such
+        # requests; link files, hidden files and .cap overrides in both.
+        tw = pyg.Tree()
+        try:
+            cfg_c = pyg.make_config(tw.root)      # shipped cache lifetime
+            for twin in ("ta", "tb"):
+                for n_ in ("alpha.txt", "beta.txt", "secret.txt", "zeta.txt", "page.html"):
+                    tw.write(twin + "/" + n_, b"content of " + n_.encode() + b"\n")
+                tw.write(twin + "/.Links", b"Path=./secret.txt\nType=X\n\nName=A remote entry\nType=1\nPath=/r\nHost=example.org\nPort=70\nNumb=1\n\nPath=./zeta.txt\nName=Zeta first\nNumb=2\n")
+                tw.write(twin + "/.cap/beta.txt", b"Name=Beta by cap\n")
+                tw.mkdir(twin + "/sub")
+            for pre in ((b"HEAD /tb HTTP/1.0\r\n\r\n", False), (b"/tb\t!\r\n", False), (b"HEAD /wap/tb HTTP/1.0\r\n\r\n", False)):
+                pyg.request(pre[0], cfg_c, tls=pre[1])
+            for view_p in ("gopher", "http", "gemini"):
+                ra = pyg.request(reqs.build(view_p, "/ta"), cfg_c, tls=reqs.TLS[view_p])
+                rb = pyg.request(reqs.build(view_p, "/tb"), cfg_c, tls=reqs.TLS[view_p])
+                res.evaluations += 2
+                na = re.sub(rb"(Last-Modified|Mod-Date):[^\r\n]*", b"T", ra.out or b"").replace(b"/ta", b"/t@").replace(b": ta<", b": t@<")
+                nb = re.sub(rb"(Last-Modified|Mod-Date):[^\r\n]*", b"T", rb.out or b"").replace(b"/tb", b"/t@").replace(b": tb<", b": t@<")
+                res.nontrivial.add(("prepare-only-then-list", view_p))
+                if na != nb:
+                    k_ = next((i_ for i_, (x_, y_) in enumerate(zip(na, nb)) if x_ != y_), min(len(na), len(nb)))
+                    res.violation("C07:listing-after-prepare-only-request", "the listing of a directory differs after a request that only prepared it (HEAD / item information)",
+                                  {"view": view_p, "before": ["HEAD /tb", "/tb<TAB>!", "HEAD /wap/tb"]}, observed=nb[max(0, k_ - 60):k_ + 120], required=na[max(0, k_ - 60):k_ + 120],
+                                  replay={"names": ["alpha.txt", "beta.txt", "secret.txt", "zeta.txt", "page.html", ".Links", ".cap/beta.txt"], "handler": "umn"})
+        finally:
+            tw.close()
         outs = ctx.driver.run(model_lines + regex_lines)
         for (inp, impl), o in zip(checks, outs[:len(model_lines)]):
             res.evaluations += 1
